@@ -46,6 +46,13 @@ Theorem C11_always_atom_false_rejects : forall p u s, nontemporal p = true ->
 Proof. intros p u s; exact (always_false_now p u s). Qed.
 Print Assumptions C11_always_atom_false_rejects.
 
+(* ... and the run rejects exactly at the first step in which the condition is false *)
+Theorem C11_always_rejects_at_first_false : forall p u s w, nontemporal p = true ->
+  (forall r, In r u -> eval_now p r = true) -> eval_now p s = false ->
+  run (Always p) (u ++ s :: w) = Reject (length u).
+Proof. exact always_rejects_at_first_false. Qed.
+Print Assumptions C11_always_rejects_at_first_false.
+
 (* non-temporal sub-formulas are evaluated in the current step only, with the ordinary Boolean
    meaning of and / or / not / implies *)
 Theorem C11_nontemporal_current_step : forall p tr i, nontemporal p = true ->
